@@ -17,7 +17,7 @@ sed -i "s#/repo#$MX/repo#g" $MX/verif/check $MX/verif/setup.sh
 (cd $MX/verif && ./setup.sh >/dev/null 2>&1) || { echo "setup failed"; exit 2; }
 OUT=/verif/seeded/OWN.txt
 : > $OUT
-for d in /verif/seeded/C*-m*; do
+for d in /verif/seeded/C*-[mf]*; do
     id=$(basename $d); c=${id%%-*}
     (cd $MX/repo && git checkout -q -- . && git apply $d/patch.diff) || { echo "$id APPLY-FAIL" >> $OUT; continue; }
     (cd $MX/verif && nice -n 5 ./check $c quick >/dev/null 2>&1); code=$?
